@@ -99,6 +99,8 @@ PRODS = {
     "plus3": ("N", ("N", "N", "N")), "times3": ("N", ("N", "N", "N")), "F": ("N", ("N",)),
     "o1": ("O", ()), "o2": ("O", ()), "x": ("O", ()), "xo": ("O", ()), "z": ("O", ()), "y": ("O", ()), "w": ("O", ("O",)),
     "xn": ("O", ()),  # the variable that the NEXT inner quantifier binds, used free here (capture candidates)
+    "xnn": ("O", ()),  # the variable bound TWO quantifiers further in (capture below another quantifier)
+    "xoo": ("O", ()),  # the variable bound two quantifiers further out
 }
 # macro productions: a fixed sub-skeleton offered as one production (it costs its real number of nodes / levels)
 MACROS = {
@@ -112,6 +114,8 @@ MACROS = {
     "x==w(x)": ("B", ["oeq", ["x"], ["w", ["x"]]]), "x==w(o1)": ("B", ["oeq", ["x"], ["w", ["o1"]]]), "x==w(xo)": ("B", ["oeq", ["x"], ["w", ["xo"]]]),
     "xo==w(x)": ("B", ["oeq", ["xo"], ["w", ["x"]]]), "w(x)==x": ("B", ["oeq", ["w", ["x"]], ["x"]]), "x==o2": ("B", ["oeq", ["x"], ["o2"]]),
     "x==xn": ("B", ["oeq", ["x"], ["xn"]]), "xn==x": ("B", ["oeq", ["xn"], ["x"]]), "p(xn)": ("B", ["p", ["xn"]]),
+    "x==xnn": ("B", ["oeq", ["x"], ["xnn"]]), "xnn==x": ("B", ["oeq", ["xnn"], ["x"]]),
+    "q(xoo,x)": ("B", ["q", ["xoo"], ["x"]]), "q(x,xoo)": ("B", ["q", ["x"], ["xoo"]]), "q(xoo,xo)": ("B", ["q", ["xoo"], ["xo"]]),
     "w(x)": ("O", ["w", ["x"]]), "w(o1)": ("O", ["w", ["o1"]]),
     "F(k1)": ("N", ["F", ["k1"]]), "F(n)": ("N", ["F", ["n"]]), "F(2)": ("N", ["F", ["2"]]),
 }
@@ -127,7 +131,7 @@ def _depth(sk):
 
 def _needs_bound(sk):
     """how many enclosing bound variables the macro refers to"""
-    own = 2 if sk[0] == "xo" else 1 if sk[0] == "x" else 0
+    own = 3 if sk[0] == "xoo" else 2 if sk[0] == "xo" else 1 if sk[0] == "x" else 0
     return max([own] + [_needs_bound(s) for s in sk[1:]])
 
 
@@ -160,6 +164,8 @@ def _gen(ctx, pool, typ, budget, depth, st, path, forced, actx):
         if p == "x" and st["bound"] < 1:
             continue
         if p == "xo" and st["bound"] < 2:
+            continue
+        if p == "xoo" and st["bound"] < 3:
             continue
         if p in ("k1", "k2") and st["symbolic"]:
             if actx["div"] or (actx["mul"] is not None and actx["mul"]["k"] >= 1):
@@ -359,6 +365,10 @@ def _build(W, sk, K, bound):
         return em.VariableExp(W.z)
     if p == "xn":
         return em.VariableExp(W.vars[len(bound)])
+    if p == "xnn":
+        return em.VariableExp(W.vars[len(bound) + 1])
+    if p == "xoo":
+        return em.VariableExp(bound[-3])
     if p == "y":
         return W.y
     if p in QUANT:
@@ -987,6 +997,11 @@ def layer3(tier):
     out.append(_sh("l3-nested", dict(B=["x==o1", "x==z", "x==xo", "xo==x", "x==w(xo)", "p(x)", "q(x,xo)", "q(x,z)", "and"] + NEST, N=[], O=[]), n=12 if q else 13, d=5,
                    engine="direct", budget=bud,
                    forced={"r": "exists", "r0": "and", "r00": ["x==o1", "x==z", "x==xn", "xn==x", "p(x)"], "r01": NEST, "r010": ["and", "q(x,xo)", "q(x,z)"]}))
+    # capture TWO quantifiers down: exists v0.(v0 == v2 and Q v1. Q v2. phi(v0, v2)); v2 occurs free in the equality
+    out.append(_sh("l3-nested2", dict(B=["x==xnn", "xnn==x", "x==z", "q(xoo,x)", "q(x,xoo)", "q(xoo,xo)", "p(x)", "and"] + NEST, N=[], O=[]), n=13, d=6,
+                   engine="direct", budget=bud,
+                   forced={"r": "exists", "r0": "and", "r00": ["x==xnn", "xnn==x", "x==z"], "r01": NEST, "r010": NEST,
+                           "r0100": ["q(xoo,x)", "q(x,xoo)", "and"], "r01000": ["q(xoo,x)", "q(xoo,xo)"], "r01001": ["p(x)", "q(x,xoo)"]}))
     return out
 
 
